@@ -32,6 +32,13 @@ def gen_cases(seed, tier):
     for s in docgen.exhaustive(docgen.SYM_LEGACYVERB, 3 if tier == 'quick' else 4):
         for tol in (False, True):
             cases.append(PC.mk_case('legacyverb', s, tol, 'legacyverb'))
+    # embellishment arguments e{^_} (markers repeated and interleaved) and token arguments (real code only)
+    r3 = random.Random(seed + 78)
+    for s in docgen.exhaustive(['\\ten{T}', '^', '_', '{a}', 'x', ' '], 4 if tier == 'quick' else 5):
+        if s.startswith('\\ten'):
+            cases.append(PC.mk_case('embell', s + 'y', False, 'embellishments'))
+    for _ in range(800 if tier == 'quick' else 12000):
+        cases.append(PC.mk_case('embell', docgen.soup(r3, docgen.SYM_EMBELL, 2, 10), r3.random() < 0.3, 'embellishments'))
     return cases
 
 
